@@ -773,8 +773,8 @@ func (w *c17bWorld) judge(c *ev.Ctx, after string, metadata map[dra.ResourceClai
 	}
 	for _, pool := range sortedKeys(slots) {
 		budget := w.poolOf[pool].CounterSlots
-		for _, k := range w.s.PreExclusive {
-			if strings.HasPrefix(k, pool+"/") {
+		for _, k := range sortedKeys(w.preExclusive) {
+			if w.preExclusive[k] && strings.HasPrefix(k, pool+"/") {
 				budget -= w.devices[k].Slots
 			}
 		}
